@@ -235,6 +235,18 @@ def drv_of(spec):
             n = args[0] if args else 1
             rs = list(args[1]) if len(args) > 1 and args[1] else [2] * n
             return f'fam IdentityGate {len(rs)} ' + ' '.join(map(str, rs)), []
+        if name == 'DiagonalGate':
+            n = args[0] if args else 2
+            return f'fam DiagonalGate 1 {n}', ['full'] * (2 ** n - 1)
+        if name == 'ArbitraryCPhaseGate':
+            rs = list(args[0]) if args and args[0] else [2, 2]
+            return f'fam ArbitraryCPhaseGate {len(rs)} ' + ' '.join(map(str, rs)), ['full']
+        if name in ('MPRYGate', 'MPRZGate'):
+            n = args[0]
+            t = args[1] if len(args) > 1 and args[1] != -1 else n - 1
+            return f'fam {name} 2 {n} {t}', ['half'] * (2 ** (n - 1))
+        if name == 'RSU3Gate':
+            return (f'fam RSU3Gate 1 {args[0]}', ['full']) if args[0] <= 6 else None
         if name == 'HGate':
             r = args[0] if args else 2
             return (f'fam HGate 1 {r}', []) if r in (2, 4) else None
@@ -415,7 +427,7 @@ def composed_constructions(pool, rng, thorough):
     out = []
     small = [p for p in pool if int(np.prod(p[2])) <= 9]
     par = [p for p in small if p[1] > 0]
-    n_each = 70 if thorough else 32
+    n_each = 70 if thorough else 26
 
     def pick(l):
         return l[rng.randrange(len(l))]
